@@ -66,7 +66,13 @@ impl BootInformationHeader {
 
 impl Header for BootInformationHeader {
     fn payload_len(&self) -> usize {
-        self.total_size as usize - mem::size_of::<Self>()
+        // A corrupt `total_size` must not underflow. Such a structure is
+        // rejected as `ShorterThanHeader` when it is loaded.
+        (self.total_size as usize).saturating_sub(mem::size_of::<Self>())
+    }
+
+    fn total_size(&self) -> usize {
+        self.total_size as usize
     }
 
     fn set_size(&mut self, total_size: usize) {
